@@ -113,13 +113,14 @@ func c17HistoryByName(name string) *c17History {
 type c17Task struct {
 	H      c17History
 	Sh, Of int
+	Fault  []c17FaultSpec // non-nil: a task of the second part (c17_openfault.go)
 }
 
 func c17Tasks(thorough bool) []c17Task {
-	var ts []c17Task
+	ts := c17FaultTasks(thorough) // second part (c17_openfault.go)
 	for _, h := range c17Histories {
 		for sh := 0; sh < c17Shards; sh++ {
-			ts = append(ts, c17Task{h, sh, c17Shards})
+			ts = append(ts, c17Task{H: h, Sh: sh, Of: c17Shards})
 		}
 	}
 	depth := 2
@@ -135,7 +136,7 @@ func c17Tasks(thorough bool) []c17Task {
 		}
 		of := 1 + total/250_000
 		for sh := 0; sh < of; sh++ {
-			ts = append(ts, c17Task{h, sh, of})
+			ts = append(ts, c17Task{H: h, Sh: sh, Of: of})
 		}
 	}
 	return ts
@@ -485,7 +486,7 @@ func c17Point(r *mc.Report, h *c17History, small bool, k int64, tear int, thorou
 		r.Max("max_units_with_unsynced_state_at_a_cut", int64(len(differ)))
 		recoverFrom := func(c c17Case, t c17Tree) {
 			d := ""
-			m := recoverPanic(func() { d = c17Recover(r, c, h, cut, t.materialize()) })
+			m := recoverPanic(func() { d = c17Recover(r, c, c.Small, h, cut, t.materialize()) })
 			if m != "" {
 				r.Violation("no-panic", "ContentStorage", "panic during recovery: "+m, c)
 			}
@@ -588,9 +589,8 @@ func recoverPanic(f func()) (msg string) {
 }
 
 // c17Recover reopens the store on fs2 and evaluates the recovery clauses (inside the caller's bubble).
-func c17Recover(r *mc.Report, c c17Case, h *c17History, cut c17Cut, fs2 vfs.FS) (digest string) {
+func c17Recover(r *mc.Report, c any, small bool, h *c17History, cut c17Cut, fs2 vfs.FS) (digest string) {
 	viol := func(clause, site, detail string) { r.Violation(clause, site, detail, c) }
-	small := c.Small
 	db, err := pebble.Open("db", c17Opts(fs2, small))
 	if err != nil {
 		viol("reopen-succeeds", "pebble.Open", fmt.Sprintf("after a crash in put #%d the database does not open: %v", cut.started, err))
@@ -716,16 +716,25 @@ func c17Recover(r *mc.Report, c c17Case, h *c17History, cut c17Cut, fs2 vfs.FS) 
 func runC17(r *mc.Report, e *Env) {
 	r.Rule = "one case = (history, write-op index k, whole | torn to 1 byte | half | all but one byte, loss pattern over the files with unsynced state: all kept | all dropped | per-file mixtures): run the real store on pebble over a strict in-memory FS, freeze every FS operation from the k-th write-kind operation on, copy the tree, reopen with pebble.Open + NewStorage, evaluate the recovery clauses, then two further puts; distinct = distinct (puts started/completed, items, usage, radius) observations"
 	r.Assume("crash model: fail-stop at file-system operation boundaries, or inside one file Write after a prefix of 1 byte / half / all but one byte of its buffer; unsynced state (pebble's strict MemFS) is lost per unit — each file's unsynced tail on its own, the unsynced directory entries (creations, removals, renames) together, in order: all kept, all dropped, and mixtures (thorough: every subset when at most 5 units differ, otherwise and in the quick tier the subsets one unit away from either extreme); quick tier tears with all unsynced data kept only")
+	r.Rule += "; second part (open under fault): one case = (put sequence = non-empty prefix of a history, small memtable or not, capacity 1 MB | 4 MB in the first life (reopened with 1 MB), first life ends with a clean close (log replayed on open) [thorough: | flush, then close], index r of the read-kind file-system operation performed by the goroutine inside NewStorage, fault = that operation only | that and all later ones): pebble.Open without faults, NewStorage under the fault, retry on a restarted process if it failed, two further puts, clean shutdown, clean reopen judged by the recovery clauses"
+	r.Assume("open under fault: only read-kind operations (open, opendir, list, stat, read, read-at, file stat) issued by the goroutine that calls NewStorage are failed (errorfs.ErrInjected), pebble.Open itself and the database's background work run without faults; write-kind operations are not failed (pebble treats a failing WAL / manifest write as fatal by design); a panic raised inside pebble purely because of the injected fault counts as a loud failure of the open, a panic raised in repository code as a violation; a store handed out although a read failed is judged on usage figure, items and pruning-only-when-over-capacity, while a missing re-derivation of the radius / missing prune in that store is only counted (open_fault_handed_out_*): the statement speaks of crashes, not of failing reads")
 	r.Assume("either byte order of the farthest retained key is accepted as the re-derived radius (which one is C06's question)")
 	tasks := c17Tasks(e.Thorough())
 	nh := map[string]bool{}
 	for _, t := range tasks {
-		nh[t.H.Name] = true
+		if t.Fault == nil {
+			nh[t.H.Name] = true
+		}
 	}
+	r.Set("open_fault_put_sequences", len(c17FaultSpecs(e.Thorough())))
 	r.Set("histories", len(nh))
 	for ti := range tasks {
 		{
 			if e.Of > 1 && e.Shard != ti {
+				continue
+			}
+			if tasks[ti].Fault != nil {
+				c17FaultExplore(r, e, tasks[ti].Fault)
 				continue
 			}
 			h, sh, of := &tasks[ti].H, tasks[ti].Sh, int64(tasks[ti].Of)
@@ -797,6 +806,11 @@ func runC17(r *mc.Report, e *Env) {
 }
 
 func replayC17(r *mc.Report, e *Env, raw json.RawMessage) {
+	var fc c17FaultCase
+	if err := json.Unmarshal(raw, &fc); err == nil && fc.Kind == c17FaultKind {
+		replayC17Fault(r, fc)
+		return
+	}
 	var c c17Case
 	if err := json.Unmarshal(raw, &c); err != nil {
 		panic(err)
